@@ -20,7 +20,7 @@
 
    Limiter tokens of the per-client limiter and the inline/replay hand-off are compared
    differentially only; see props/C05/NOTES.md. *)
-From Sdns Require Import Common.Base Gen.C05 C05.Model C05.Proofs C05.Proofs_libfuel C05.Ladder C05.Proofs_ladder C05.Edns C05.Proofs_edns.
+From Sdns Require Import Common.Base Gen.C05 C05.Model C05.Proofs C05.Proofs_libfuel C05.Ladder C05.Proofs_ladder C05.Edns C05.Proofs_edns C05.Proofs_gen3.
 Open Scope N_scope.
 
 (* the strict admission never accepts what the library rejects, and reads the same facts *)
@@ -129,3 +129,32 @@ Theorem wire_opt_reserve_exact : forall (srv : list N -> list N) w ede,
   optrec_len (wire_opt srv w ede) = wire_opt_len w + (if ew_noedns w then 0 else ede_reserve ede).
 Proof. exact wire_opt_len_exact. Qed.
 Print Assumptions wire_opt_reserve_exact.
+
+(* ---- stage-3 translator ties (internal/wire translated from source with lists) ---- *)
+
+(* wire.ParseHeader, translated, is the header parse the strict-admission model starts with *)
+Theorem parse_header_is_source : forall raw,
+  go_ParseHeader raw = match parse_header raw with Some h => (h, true) | None => (mk_T_Header 0 0 0 0 0 0, false) end.
+Proof. exact gen_parse_header. Qed.
+Print Assumptions parse_header_is_source.
+
+(* edns.appendWireOPT composed from the TRANSLATED builders wire.AppendOPTHeader / AppendOption /
+   AppendOptionString / AppendOptionEDE / FinishOPT appends to any body exactly the RFC 6891 encoding
+   of the abstract record wire_opt (which edns_wire_eq_msg equates with the decoded path's OPT), for
+   every writer, server-cookie function, EDE and body; the 16-bit length fields wrap alike on both
+   sides, so there is no size premise *)
+Theorem wire_opt_bytes_exact : forall (srv : list N -> list N) w ede body r,
+  wire_opt srv w (option_map ede_eopt ede) = Some r ->
+  append_wire_opt srv w ede body = body ++ encode_opt r.
+Proof. exact append_wire_opt_encodes. Qed.
+Print Assumptions wire_opt_bytes_exact.
+
+(* ... and that encoding is as long as the lease reserved (with wire_opt_reserve_exact) *)
+Theorem wire_opt_bytes_fill_reserve : forall (srv : list N -> list N) w ede body r,
+  (forall c, ew_cookie w = Some c -> length (srv c) = 40%nat) ->
+  wire_opt srv w (option_map ede_eopt ede) = Some r ->
+  N.of_nat (length (append_wire_opt srv w ede body)) =
+  N.of_nat (length body) + wire_opt_len w + ede_reserve (option_map ede_eopt ede).
+Proof. exact append_wire_opt_fills_reserve. Qed.
+Print Assumptions wire_opt_bytes_fill_reserve.
+
